@@ -22,7 +22,9 @@ RULE = (
     "type. The CLIENT side is algosdk's AtomicTransactionComposer.add_method_call(...).build_group() (offline, fixed key) - "
     "the independent ARC-4 encoder - converted into an interpreter context. The handler logs tag_i || encoding of every "
     "parameter it received (address / asset id / app id for references; group index, type and amount for transactions) "
-    "and sets its output from an argument or a constant. Versions 6..10, both glue flavours. Oracle: the logs equal the "
+    "and sets its output from an argument or a constant. Versions 6..10, both glue flavours, assemble_constants off/on; "
+    "registration histories: override names, one handler under two names, a refused duplicate registration that the "
+    "caller catches before compiling. Oracle: the logs equal the "
     "expected per-parameter encodings in order, followed by exactly one 0x151f7c75 || encode(result) (none for void), "
     "verdict approve; a wrong transaction type at a typed position makes the call fail; the returned ABI contract lists "
     "exactly the registered signatures and their selectors are the `method` literals of the approval program. "
@@ -99,7 +101,7 @@ def make_handler(pt, m):
     return pt.ABIReturnSubroutine(g[m["name"]])
 
 
-def compile_router(m, version, fp=None):
+def compile_router(m, version, fp=None, assemble=False):
     import pyteal as pt
 
     diff.reset_pyteal_state()
@@ -110,12 +112,20 @@ def compile_router(m, version, fp=None):
         if m.get("alias"):
             # the same handler object registered a second time under another name
             r.add_method_handler(h, overriding_name=m["alias"], method_config=pt.MethodConfig(no_op=pt.CallConfig.CALL))
+        if m.get("redo"):
+            # a registration that PyTeal refuses (same signature again, from a new handler object); the caller catches the
+            # refusal and carries on - the refused registration must leave no trace in program or contract
+            try:
+                r.add_method_handler(make_handler(pt, m), overriding_name=m.get("override"), method_config=pt.MethodConfig(no_op=pt.CallConfig.CALL))
+                return "redo-accepted", None, None
+            except pt.TealInputError:
+                pass
         # a second, unrelated method so that dispatch is not trivial
         g = {"pt": pt, "Expr": pt.Expr}
         exec(compile("def other() -> Expr:\n    return pt.Log(pt.Bytes(b'OTHER'))\n", "<c09>", "exec", dont_inherit=True), g)
         r.add_method_handler(pt.ABIReturnSubroutine(g["other"]))
         opt = pt.OptimizeOptions(frame_pointers=fp) if fp is not None else None
-        a, c, contract = r.compile_program(version=version, optimize=opt)
+        a, c, contract = r.compile_program(version=version, optimize=opt, assemble_constants=bool(assemble))
         return "ok", a, contract
     except diff.pyteal_errors() as e:
         return "refused", e, None
@@ -238,7 +248,10 @@ def run_case(case, col=None):
             col.cls("discard:log-limits")
         return out
     for cfg in case["configs"]:
-        kind, approval, contract = compile_router(m, cfg["version"], cfg.get("fp"))
+        kind, approval, contract = compile_router(m, cfg["version"], cfg.get("fp"), cfg.get("assemble"))
+        if kind == "redo-accepted":
+            out.append(("duplicate-registration-accepted", "cfg=%s: registering the signature %s a second time was accepted" % (cfg, sig_of(m))))
+            break
         if kind == "refused":
             out.append(("router-refused", "cfg=%s: %s: %s for %s" % (cfg, type(approval).__name__, str(approval)[:200], sig_of(m))))
             break
@@ -258,8 +271,15 @@ def run_case(case, col=None):
         if sigs != sorted(reg):
             out.append(("contract-methods", "cfg=%s: contract lists %s, registered %s" % (cfg, sigs, sorted(reg))))
             break
-        lits = sorted(bytes(i.const).hex() for i in prog.instrs if i.op == "method")
         sels = sorted(x.get_selector().hex() for x in contract.methods)
+        if cfg.get("assemble"):
+            # method literals are loaded from the constant block / pushbytes: the 4-byte constants that are the sha512/256
+            # prefix of a registered signature (compared as a set with what the contract lists)
+            consts = set(bytes(c).hex() for c in (prog.bytecblock or []) if isinstance(c, (bytes, bytearray)))
+            consts |= set(bytes(i.const).hex() for i in prog.instrs if i.op in ("pushbytes", "byte", "method") and isinstance(i.const, (bytes, bytearray)))
+            lits = sorted(x for x in consts if x in sels)
+        else:
+            lits = sorted(bytes(i.const).hex() for i in prog.instrs if i.op == "method")
         if lits != sels:
             out.append(("contract-selectors", "cfg=%s: contract selectors %s, program dispatches on %s" % (cfg, sels, lits)))
             break
@@ -355,6 +375,8 @@ def case_strategy(draw, tier):
         m["override"] = draw(st.sampled_from(["renamed", "do_it", "x"]))
     if draw(st.integers(0, 5)) == 0:
         m["alias"] = draw(st.sampled_from(["alias_a", "send", "y"]))
+    if draw(st.integers(0, 5)) == 0:
+        m["redo"] = True
     if draw(st.integers(0, 2)) > 0:
         abi_i = [i for i, p in enumerate(params) if p["k"] == "abi"]
         if abi_i and draw(st.booleans()):
@@ -370,6 +392,8 @@ def case_strategy(draw, tier):
         cfg = {"version": v}
         if v >= 8 and draw(st.integers(0, 3)) == 0:
             cfg["fp"] = False
+        if draw(st.integers(0, 3)) == 0:
+            cfg["assemble"] = True
         cfgs.append(cfg)
     return {"method": m, "values": values, "configs": cfgs}
 
